@@ -13,54 +13,73 @@ Fixpoint lookup {A} (k : id) (l : list (id * A)) : option A :=
   match l with [] => None | (k', v) :: r => if ideq k k' then Some v else lookup k r end.
 
 (* ---- what an observer of the trace knows about each credential ---- *)
-Record ginfo := mkGI { gi_client : id; gi_sub : string; gi_granted : string; gi_origin : id (* code it came from *) }.
+Record ginfo := mkGI { gi_client : id; gi_sub : string; gi_granted : string; gi_origin : id (* code it came from *);
+                       gi_res : list string (* resources the owner granted; for owner-less grants: requested *);
+                       gi_ownerless : bool }.
 
 Record known := mkKnown {
   k_cbs : list (id * id);          (* callback id -> client *)
   k_codes : list (id * ginfo);
   k_ats : list (id * ginfo);
-  k_rts : list (id * ginfo)
+  k_rts : list (id * ginfo);
+  k_cibas : list (id * ginfo)      (* auth_req_id -> what the embedder granted at /bc-authorize *)
 }.
-Definition known0 : known := mkKnown [] [] [] [].
+Definition known0 : known := mkKnown [] [] [] [] [].
 
 Definition cred_client (c : cred) : id := cr_id c.
+
+Definition add_tokens (kn : known) (gi : ginfo) (at_ rt : id) : known :=
+  mkKnown (k_cbs kn) (k_codes kn) (if is_nil at_ then k_ats kn else (at_, gi) :: k_ats kn)
+          (if is_nil rt then k_rts kn else (rt, gi) :: k_rts kn) (k_cibas kn).
 
 (* learn from one (operation, observation) pair *)
 Definition learn (kn : known) (o : op) (x : obs) : known :=
   match o, x with
-  | OpAuthorize r, Out (OPage cb) => mkKnown ((cb, ar_client r) :: k_cbs kn) (k_codes kn) (k_ats kn) (k_rts kn)
+  | OpAuthorize r, Out (OPage cb) => mkKnown ((cb, ar_client r) :: k_cbs kn) (k_codes kn) (k_ats kn) (k_rts kn) (k_cibas kn)
   | OpAuthorize r, Out (ONav _ _ nv) =>
       match ar_pol r with
-      | PolSuccess sub granted =>
+      | PolSuccess sub granted res =>
           (* the implicit token delivered alongside a code belongs to its own grant: origin 0 *)
           mkKnown (k_cbs kn)
-            (if is_nil (n_code nv) then k_codes kn else (n_code nv, mkGI (ar_client r) sub granted (n_code nv)) :: k_codes kn)
-            (if is_nil (n_at nv) then k_ats kn else (n_at nv, mkGI (ar_client r) sub granted 0) :: k_ats kn) (k_rts kn)
+            (if is_nil (n_code nv) then k_codes kn else (n_code nv, mkGI (ar_client r) sub granted (n_code nv) res false) :: k_codes kn)
+            (if is_nil (n_at nv) then k_ats kn else (n_at nv, mkGI (ar_client r) sub granted 0 res false) :: k_ats kn) (k_rts kn)
+            (k_cibas kn)
       | _ => kn
       end
   | OpCallback r, Out (ONav _ _ nv) =>
       match cb_pol r, lookup (cb_id r) (k_cbs kn) with
-      | PolSuccess sub granted, Some cl =>
+      | PolSuccess sub granted res, Some cl =>
           mkKnown (k_cbs kn)
-            (if is_nil (n_code nv) then k_codes kn else (n_code nv, mkGI cl sub granted (n_code nv)) :: k_codes kn)
-            (if is_nil (n_at nv) then k_ats kn else (n_at nv, mkGI cl sub granted 0) :: k_ats kn) (k_rts kn)
+            (if is_nil (n_code nv) then k_codes kn else (n_code nv, mkGI cl sub granted (n_code nv) res false) :: k_codes kn)
+            (if is_nil (n_at nv) then k_ats kn else (n_at nv, mkGI cl sub granted 0 res false) :: k_ats kn) (k_rts kn)
+            (k_cibas kn)
       | _, _ => kn
       end
   | OpToken GAuthorizationCode r, Out (OTokens t) =>
       match lookup (t_code r) (k_codes kn) with
-      | Some gi => mkKnown (k_cbs kn) (k_codes kn) ((tr_at t, gi) :: k_ats kn)
-                     (if is_nil (tr_rt t) then k_rts kn else (tr_rt t, gi) :: k_rts kn)
+      | Some gi => add_tokens kn gi (tr_at t) (tr_rt t)
       | None => kn
       end
   | OpToken GRefreshToken r, Out (OTokens t) =>
       match lookup (t_refresh r) (k_rts kn) with
-      | Some gi => mkKnown (k_cbs kn) (k_codes kn) ((tr_at t, gi) :: k_ats kn)
-                     (if is_nil (tr_rt t) then k_rts kn else (tr_rt t, gi) :: k_rts kn)
+      | Some gi => add_tokens kn gi (tr_at t) (tr_rt t)
       | None => kn
       end
   | OpToken GClientCredentials r, Out (OTokens t) =>
-      mkKnown (k_cbs kn) (k_codes kn)
-        ((tr_at t, mkGI (cr_id (t_cred r)) (cname (cr_id (t_cred r))) (t_scope r) 0) :: k_ats kn) (k_rts kn)
+      add_tokens kn (mkGI (cr_id (t_cred r)) (cname (cr_id (t_cred r))) (t_scope r) 0 (t_resources r) true) (tr_at t) 0
+  | OpBcAuthorize r, Out (OCiba a _) =>
+      mkKnown (k_cbs kn) (k_codes kn) (k_ats kn) (k_rts kn)
+              ((a, mkGI (cr_id (br_cred r)) (br_sub r) (br_granted r) 0 (br_granted_res r) false) :: k_cibas kn)
+  | OpToken GCiba r, Out (OTokens t) =>
+      match lookup (t_auth_req r) (k_cibas kn) with
+      | Some gi => add_tokens kn gi (tr_at t) (tr_rt t)
+      | None => kn
+      end
+  | OpNotifyOk a _, Notified true (nf :: _) =>
+      match lookup a (k_cibas kn) with
+      | Some gi => add_tokens kn gi (nf_at nf) (nf_rt nf)
+      | None => kn
+      end
   | _, _ => kn
   end.
 
@@ -86,26 +105,41 @@ Definition run_monitor clause (c : syscase) : N :=
 
 Definition ptok_exact (p : ptok) : id := match p with PExact h => h | _ => 0 end.
 
-(* ---- C04: reported scopes stay within what the resource owner granted (or, for
-        client_credentials, what was requested), and identity is that of the grant ---- *)
+(* ---- C04: reported scopes and resources (aud) stay within what the resource owner granted (or, for
+        client_credentials, what was requested and the server's configured resources), and identity is
+        that of the grant ---- *)
 Definition within_s (granted s : string) : bool := contains_all_scopes granted s.
+(* clause 4: the `resources` member of a token response, the aud claim of a JWT access token *)
+Definition res_within (gi : ginfo) (t : tresp) : bool := andb (subset (tr_res t) (gi_res gi)) (subset (tr_aud t) (gi_res gi)).
+Definition c04_tokens (gi : ginfo) (t : tresp) : N :=
+  if negb (within_s (gi_granted gi) (tr_scope t)) then 1 else if negb (res_within gi t) then 4 else 0.
+Definition c04_info (cfg : config) (kn : known) (p : ptok) (i : intro) : N :=
+  if negb (in_active i) then 0 else
+  match lookup (ptok_exact p) (if in_refresh i then k_rts kn else k_ats kn) with
+  | Some gi => if negb (within_s (gi_granted gi) (in_scope i)) then 1
+               else if negb (ideq (in_client i) (gi_client gi)) then 3
+               else if negb (subset (in_aud i) (gi_res gi)) then 4
+               else if andb (gi_ownerless gi) (negb (subset (in_aud i) (cf_resources cfg))) then 4
+               else 0
+  | None => 0 end.
 Definition clause_C04 (cfg : config) (kn : known) (now : Z) (o : op) (x : obs) : N :=
   match o, x with
   | OpToken GAuthorizationCode r, Out (OTokens t) =>
       match lookup (t_code r) (k_codes kn) with
-      | Some gi => if within_s (gi_granted gi) (tr_scope t) then 0 else 1
+      | Some gi => c04_tokens gi t
       | None => 0 end
   | OpToken GRefreshToken r, Out (OTokens t) =>
       match lookup (t_refresh r) (k_rts kn) with
-      | Some gi => if within_s (gi_granted gi) (tr_scope t) then 0 else 1
+      | Some gi => c04_tokens gi t
       | None => 0 end
-  | OpIntrospect r, Out (OIntro i) =>
-      if negb (in_active i) then 0 else
-      match lookup (ptok_exact (q_tok r)) (if in_refresh i then k_rts kn else k_ats kn) with
-      | Some gi => if negb (within_s (gi_granted gi) (in_scope i)) then 1
-                   else if negb (ideq (in_client i) (gi_client gi)) then 3
-                   else 0
+  | OpToken GCiba r, Out (OTokens t) =>
+      match lookup (t_auth_req r) (k_cibas kn) with
+      | Some gi => c04_tokens gi t
       | None => 0 end
+  | OpToken GClientCredentials r, Out (OTokens t) =>
+      if andb (subset (tr_aud t) (cf_resources cfg)) (subset (tr_aud t) (t_resources r)) then 0 else 4
+  | OpIntrospect r, Out (OIntro i) => c04_info cfg kn (q_tok r) i
+  | OpTokenInfo p, Out (OIntro i) => c04_info cfg kn p i
   | _, _ => 0
   end.
 Definition mon_C04 := run_monitor clause_C04.
@@ -250,14 +284,21 @@ Definition clause_C10 (cfg : config) (kn : known) (now : Z) (o : op) (x : obs) :
           if negb (ideq (gi_client gi) (cr_id (t_cred r))) then 2
           else if negb (contains_all_scopes (gi_granted gi) (t_scope r)) then 3
           else if andb (cf_refresh_rotation cfg) (orb (is_nil (tr_rt t)) (ideq (tr_rt t) (t_refresh r))) then 5
+          else if negb (res_within gi t) then 7
           else 0
       | None => 0 end
   | OpIntrospect r, Out (OIntro i) =>
-      if andb (in_active i) (in_refresh i) then
+      if negb (in_active i) then 0 else
+      if in_refresh i then
         match lookup (ptok_exact (q_tok r)) (k_rts kn) with
-        | Some gi => if contains_all_scopes (gi_granted gi) (in_scope i) then 0 else 3
+        | Some gi => if negb (contains_all_scopes (gi_granted gi) (in_scope i)) then 3
+                     else if negb (subset (in_aud i) (gi_res gi)) then 7 else 0
         | None => 0 end
-      else 0
+      else
+        (* the audience of the current access token of a grant, after however many refreshes *)
+        match lookup (ptok_exact (q_tok r)) (k_ats kn) with
+        | Some gi => if subset (in_aud i) (gi_res gi) then 0 else 7
+        | None => 0 end
   | _, _ => 0
   end.
 Definition mon_C10 (c : syscase) : N :=
